@@ -289,6 +289,8 @@ class Valuation:
                     self.decls[decl.name()] = decl
 
     def const(self, name, e):
+        if name.startswith('NAN!'):
+            return float('nan')             # a NaN payload word (core.nanword)
         if name in self.cache:
             return self.cache[name]
         if self.model is not None:
